@@ -8,6 +8,7 @@ import os
 import random
 
 import runner
+import vlib
 
 PID = "C12"
 PROP_FILE = "Props/Properties_C12.v"
@@ -252,8 +253,58 @@ def openssl_roundtrip(ctx, dist):
                 kb = b"\x00" + kb[1:]
             keys.append(("oct %d octets%s" % (n, " leading zero" if lead else ""), {"kty": "oct", "k": G.b64(kb)}))
     keys.append(("oct with metadata", {"kty": "oct", "k": G.b64(b"sixteen byte key"), "alg": "HS256"}))
+    # RSA: every subset of the factor / CRT members (an incomplete p,q pair or dp,dq,qi triple must be REFUSED, never
+    # converted with members dropped), members with a leading zero octet (value kept, text renormalised), short EC
+    # coordinates (padded), other type spellings, non-key members, "oth"
+    edge = []
+    try:
+        rk = rsa[sorted(rsa)[0]]
+        base = {m: rk[m] for m in ("kty", "n", "e", "d")}
+        grp = ["p", "q", "dp", "dq", "qi"]
+        for bits in range(32):
+            sub = [g for i, g in enumerate(grp) if bits >> i & 1]
+            edge.append(("RSA subset " + "+".join(sub), dict(base, **{g: rk[g] for g in sub})))
+        edge.append(("RSA n with a leading zero octet", dict(G.pub_of(rk), n=G.b64(b"\x00" + G.unb64(rk["n"])))))
+        edge.append(("RSA e with a leading zero octet", dict(G.pub_of(rk), e=G.b64(b"\x00" + G.unb64(rk["e"])))))
+        edge.append(("RSA with oth", dict(rk, oth=[])))
+        edge.append(("RSA with metadata", dict(rk, alg="RS256", kid="k", use="sig")))
+        edge.append(("rsa lower case", dict(G.pub_of(rk), kty="rsa")))
+        edge.append(("RSA e zero", dict(G.pub_of(rk), e="AA")))
+        edge.append(("RSA without e", {"kty": "RSA", "n": rk["n"]}))
+    except Exception:
+        pass
+    for tag, k in list(keys):
+        if tag.startswith("P-256") and tag.endswith("x0 public"):
+            xb = G.unb64(k["x"])
+            edge.append(("EC short x", dict(k, x=G.b64(xb.lstrip(b"\x00")))))
+    edge.append(("oct empty", {"kty": "oct", "k": ""}))
+    edge.append(("OCT upper case", {"kty": "OCT", "k": "AAEC"}))
+    edge.append(("unknown type", {"kty": "OKP", "crv": "Ed25519", "x": "AAEC"}))
+    ecases = ["osslrt\t%s" % J(k) for _, k in edge]
+    eouts = G.harness(bdir, ecases)
+    for (tag, k), c, o in zip(edge, ecases, eouts):
+        if o.startswith("CRASH"):
+            rep.violation("ossl-roundtrip:crash", "crash: " + o[:200], {"case": c})
+            continue
+        for route, txt in zip(("EVP_PKEY", "EC_KEY/RSA"), o.split("\t")):
+            if txt in ("-", "ERR"):
+                continue
+            back = json.loads(txt)
+            lost = [m for m in k if m in ("n", "e", "d", "p", "q", "dp", "dq", "qi", "oth", "crv", "x", "y", "k") and m not in back]
+            if lost:
+                rep.violation("ossl-roundtrip:member-dropped:%s:%s" % (k.get("kty"), ",".join(lost)),
+                              "%s: JWK -> %s -> JWK succeeds but the key member(s) %s present in the input are missing from the result" % (tag, route, ",".join(lost)),
+                              {"case": c, "implementation": txt[:600]})
+    dist["OpenSSL round trips: RSA member subsets, leading zeros, spellings, oth"] = len(ecases)
     cases = ["osslrt\t%s" % J(k) for _, k in keys]
     outs = G.harness(bdir, cases)
+    # the same lines on the Gallina model of the conversions (coq/Jwk/Conv.v), with the point check that accepts all
+    if ctx.get("driver"):
+        mo = vlib.run_cases(ctx["driver"], cases + ecases)
+        for c, oi, om in zip(cases + ecases, outs + eouts, mo):
+            if oi != om and not oi.startswith("CRASH"):
+                ctx.setdefault("conv_disagreements", []).append({"case": c[:1500], "implementation": oi[:600], "model": om[:600]})
+        dist["OpenSSL round trips also run on the conversion model"] = len(mo)
     thp = G.harness(bdir, ["thp\t%s\tS256" % J(k) for _, k in keys])
     recheck = []
     for (tag, k), c, o in zip(keys, cases, outs):
@@ -285,6 +336,11 @@ def correspond(ctx):
     cases, dist = gen(ctx["tier"], ctx["seed"])
     nrt = openssl_roundtrip(ctx, dist)
     st = standard_part(ctx, cases, dist)
+    for d_ in ctx.get("conv_disagreements", []):
+        st["disagreements"] += 1
+        st["first_disagreements"].append(d_)
+        ctx["rep"].violation("ossl-roundtrip:model-differs", "JWK -> OpenSSL -> JWK: the implementation and the conversion model (coq/Jwk/Conv.v) give different results",
+                             dict(d_))
     st["evaluations"] += nrt
     return st
 
